@@ -22,7 +22,7 @@ import (
 
 func c11Pool() [][]byte {
 	return [][]byte{
-		{}, {0}, {1}, {2}, []byte("F"), []byte("F\x01"), []byte("S"),
+		{}, {0}, {1}, {2}, []byte(tF), []byte(tF1), []byte(tS),
 		bytes.Repeat([]byte{0xff}, 8), {1, 0, 0, 0, 0, 0, 0, 0, 0},
 		new(big.Int).SetUint64(0x5555555555555556).Bytes(), // 3n+2 = 4, 3n+1 = 3 (mod 2^64)
 		new(big.Int).SetUint64(0xAAAAAAAAAAAAAAAB).Bytes(), // 3n+2 = 3, 3n+1 = 2 (mod 2^64)
